@@ -394,6 +394,16 @@ impl McnkChunk {
         // TODO: Add chunk discovery support for MCDD
         let doodad_disable = None;
 
+        // MCBB (MoP+) has no dedicated offset in the MCNK header: locate it by walking the sub-chunks
+        let blend_batches = {
+            let data = scan_for_subchunk(reader, mcnk_start_offset, mcnk_size, ChunkId::MCBB)?;
+            if !data.is_empty() {
+                Some(McbbChunk::read_le(&mut std::io::Cursor::new(data))?)
+            } else {
+                None
+            }
+        };
+
         Ok(Self {
             header,
             heights,
@@ -410,7 +420,7 @@ impl McnkChunk {
             sound_emitters,
             liquid,
             doodad_disable,
-            blend_batches: None, // TODO: Parse MCBB from chunk discovery
+            blend_batches,
         })
     }
 
